@@ -280,6 +280,26 @@ type sigMatrix struct {
 	classes []string
 	honest  bool // every vector holds >= REP distinct valid member signatures and only well-formed (64-byte) entries
 	wellLen bool
+	// argument shape: the whole matrix passed as Null, or one vector passed as Null; the oracle sees
+	// no signatures there
+	nullMatrix bool
+	nullVector int // index+1; 0: none
+}
+
+// arg renders the matrix as the invocation argument.
+func (sm sigMatrix) arg() any {
+	if sm.nullMatrix {
+		return nil
+	}
+	res := make([]any, len(sm.sigs))
+	for i, v := range sm.sigs {
+		if i+1 == sm.nullVector {
+			res[i] = nil
+		} else {
+			res[i] = toAny(v)
+		}
+	}
+	return res
 }
 
 // oracle: does the matrix satisfy the property's condition?
@@ -318,6 +338,15 @@ func (c *c14env) buildMatrix(cid, msg []byte, members map[int][]*keys.PrivateKey
 	nonMember := c.freshKeys(2)
 	var m [][][]byte
 	sm := sigMatrix{honest: true, wellLen: true}
+	switch class0 {
+	case "null-matrix", "empty-matrix":
+		// no signatures at all, as Null or as an empty array: enough only for a container without REP numbers
+		// (seeded change C14-8: a Null guard in front of the verification)
+		sm.nullMatrix = class0 == "null-matrix"
+		sm.honest = len(ro.reps) == 0
+		sm.sigs = [][][]byte{}
+		return sm
+	}
 	for i, rep := range ro.reps {
 		ms := members[i]
 		var v [][]byte
@@ -334,6 +363,9 @@ func (c *c14env) buildMatrix(cid, msg []byte, members map[int][]*keys.PrivateKey
 		class := class0
 		if target >= 0 && i != target {
 			class = "honest"
+		}
+		if class == "null-vector" {
+			class = "honest" // signed honestly, then dropped below
 		}
 		switch class {
 		case "honest":
@@ -431,6 +463,16 @@ func (c *c14env) buildMatrix(cid, msg []byte, members map[int][]*keys.PrivateKey
 		m = m[:len(m)-1]
 		sm.honest = false
 	}
+	if class == "null-vector" && len(m) > 0 {
+		// honest everywhere, but one vector (the target, else the last) is passed as Null
+		k := len(m) - 1
+		if target >= 0 && target < len(m) {
+			k = target
+		}
+		m[k] = nil
+		sm.nullVector = k + 1
+		sm.honest = false
+	}
 	if class == "honest" && r.IntN(3) == 0 {
 		m = append(m, [][]byte{nonMember[0].Sign(msg)}) // an extra vector
 	}
@@ -438,11 +480,11 @@ func (c *c14env) buildMatrix(cid, msg []byte, members map[int][]*keys.PrivateKey
 	return sm
 }
 
-var sigClasses = []string{"honest", "honest+noise", "honest+junk", "duplicate-member", "malleated-twin", "one-short+duplicate", "non-member", "other-vector-member", "other-message", "short-vector", "missing-vector"}
+var sigClasses = []string{"honest", "honest+noise", "honest+junk", "duplicate-member", "malleated-twin", "one-short+duplicate", "non-member", "other-vector-member", "other-message", "short-vector", "missing-vector", "null-matrix", "empty-matrix", "null-vector"}
 
 func (c *c14env) judgeVerify(cid, msg []byte, sm sigMatrix, class string) {
 	b := c.b
-	r := c.w.Read(c.cn, "verifyPlacementSignatures", cid, msg, sigsArg(sm.sigs))
+	r := c.w.Read(c.cn, "verifyPlacementSignatures", cid, msg, sm.arg())
 	b.Read(1)
 	ok := c.sigOracle(cid, msg, sm.sigs)
 	out := "fault"
@@ -611,7 +653,7 @@ func runC14(b *runner.Batch) {
 		msg := []byte(fmt.Sprintf("message %d/%d", b.Index, round))
 		for _, class := range sigClasses {
 			c.judgeVerify(cid, msg, c.buildMatrix(cid, msg, members, class, -1), class)
-			if nvec >= 2 && class != "honest" && class != "missing-vector" {
+			if nvec >= 2 && class != "honest" && class != "missing-vector" && class != "null-matrix" && class != "empty-matrix" {
 				// the same defect in one vector only (every vector in turn), the others signed honestly
 				for t := 0; t < nvec; t++ {
 					c.judgeVerify(cid, msg, c.buildMatrix(cid, msg, members, class, t), class)
@@ -621,7 +663,7 @@ func runC14(b *runner.Batch) {
 		}
 		// submitObjectPut: the message is the meta information itself
 		height := int64(c.w.Height())
-		for _, class := range []string{"honest", "duplicate-member", "non-member", "missing-vector", "honest+noise"} {
+		for _, class := range []string{"honest", "duplicate-member", "non-member", "missing-vector", "honest+noise", "null-matrix", "empty-matrix", "null-vector"} {
 			network := int64(world.Magic)
 			vub := height + 100
 			variant := "valid"
@@ -641,7 +683,7 @@ func runC14(b *runner.Batch) {
 				tgt = b.Rng.IntN(nvec)
 			}
 			sm := c.buildMatrix(cid, meta, members, class, tgt)
-			r := c.w.Invoke(nil, c.cn, "submitObjectPut", meta, sigsArg(sm.sigs))
+			r := c.w.Invoke(nil, c.cn, "submitObjectPut", meta, sm.arg())
 			b.Tx(1)
 			rs := []*world.TxResult{r}
 			sigOK := c.sigOracle(cid, meta, sm.sigs)
